@@ -110,7 +110,11 @@ inductive PStep (op : Op) (k : Nat) : Option Payment → Option Payment → Prop
       (x = none ∨ ∃ p, x = some p ∧ p.status = .failed) → PStep op k x (some ⟨v, [], none⟩)
   /-- `DeletePayment`. -/
   | delete (p : Payment) : op = .del k → p.status ≠ .inFlight → PStep op k (some p) none
-  /-- `DeleteFailedAttempts`. -/
+  /-- bulk `DeletePayments(failedOnly, false)`: never an in-flight payment, and with
+      `failedOnly` only a failed one. -/
+  | bulkDelete (p : Payment) (fo : Bool) : op = .delAll fo false → p.status ≠ .inFlight →
+      (fo = true → p.status = .failed) → PStep op k (some p) none
+  /-- `DeleteFailedAttempts` (or bulk `DeletePayments(_, true)`). -/
   | delFailed (p : Payment) : p.status ≠ .inFlight →
       PStep op k (some p) (some { p with attempts := p.attempts.filter (fun x => !(x.st == .failed)) })
   /-- `RegisterAttempt` with a new id. -/
@@ -151,6 +155,23 @@ theorem payment?_filterRows_ne (s : Store) (keep : Nat → Attempt → Bool) (k 
 
 theorem removable_ok {st : Status} (h : removable st = .ok) : st ≠ .inFlight := by
   cases st <;> simp [removable] at h ⊢
+
+theorem bulkHit_true {s : Store} {fo : Bool} {k : Nat} (h : s.bulkHit fo k = true) :
+    ∃ p, s.payment? k = some p ∧ p.status ≠ .inFlight ∧ (fo = true → p.status = .failed) := by
+  unfold Store.bulkHit at h
+  cases hp : s.payment? k with
+  | none => simp [hp] at h
+  | some p =>
+    simp only [hp, bulkSkip] at h
+    refine ⟨p, rfl, ?_, ?_⟩
+    · intro hs; simp [hs] at h
+    · intro hfo; subst hfo
+      cases hs : p.status <;> simp [hs] at h ⊢
+
+theorem payment?_dropInfo (s : Store) (hit : Nat → Bool) (k : Nat) :
+    (s.dropInfo hit).payment? k = if hit k = true then none else s.payment? k := by
+  simp only [payment?_eq, Store.dropInfo, Store.attemptsOf]
+  split <;> simp_all
 
 /-- `resolve` moves every payment along `PStep`. -/
 theorem resolve_pstep (b : Backend) (s : Store) (h id : Nat) (st : AState) (hst : st ≠ .inflight)
@@ -341,6 +362,37 @@ theorem step_pstep (b : Backend) (s : Store) (op : Op) (k : Nat) :
   | fetch h =>
     simp only [step]
     cases s.payment? h <;> exact .same _
+  | delAll fo fho =>
+    simp only [step]
+    cases fho with
+    | true =>
+      simp only [if_true]
+      cases hh : s.bulkHit fo k with
+      | true =>
+        obtain ⟨p, hp, hns, _⟩ := bulkHit_true hh
+        obtain ⟨i, hi, hpe⟩ := payment?_some_inv hp
+        rw [hp, payment?_of_info (s := s.filterRows _) (i := i) (by simpa [info_filterRows] using hi),
+          attemptsOf_filterRows]
+        have := PStep.delFailed (op := .delAll fo true) (k := k) p hns
+        simpa [hpe, mkP, hh] using this
+      | false =>
+        rw [payment?_filterRows_ne]
+        · exact .same _
+        · simp [hh]
+    | false =>
+      simp only [Bool.false_eq_true, if_false]
+      rw [payment?_dropInfo]
+      cases hh : s.bulkHit fo k with
+      | true =>
+        obtain ⟨p, hp, hns, hf⟩ := bulkHit_true hh
+        simp only [if_true]
+        rw [hp]
+        exact .bulkDelete p fo rfl hns hf
+      | false =>
+        simp only [Bool.false_eq_true, if_false]
+        rw [payment?_filterRows_ne]
+        · exact .same _
+        · simp [hh]
 
 
 /-! ### status -/
@@ -695,6 +747,9 @@ theorem gstep_ledger (b : Backend) (s : Store) (op : Op)
   | fetch h =>
     simp only [step]
     cases hp : s.payment? h <;> rfl
+  | delAll fo fho =>
+    simp only [step]
+    cases fho <;> rfl
 
 theorem gstep_fst (b : Backend) (g : GState) (op : Op) : (gstep b g op).1 = (step b g.1 op).1 := rfl
 
